@@ -7,7 +7,8 @@ export GOFLAGS=-mod=mod GOPROXY=off GOSUMDB=off GOTOOLCHAIN=local CGO_ENABLED=1
 mkdir -p bin work evidence replays
 (cd gen && go build -o ../bin/gen .)
 ./bin/gen -repo "${VERIF_REPO:-/repo}" -out coq/theories/Gen || echo "setup: guard translator reported a broken tie (checks will report it)"
-(cd coq && coq_makefile -f _CoqProject -o Makefile >/dev/null && timeout 3000 make -j12 -k) || echo "setup: some Coq files did not build (checks will report it)"
+python3 lib/engine.py makefile
+(cd coq && timeout 3000 make -j12 -k) || echo "setup: some Coq files did not build (checks will report it)"
 cp "${VERIF_REPO:-/repo}/go.sum" harness/go.sum
 for b in $(ls harness/cmd); do
   (cd harness && go build -tags verif -o ../bin/$b ./cmd/$b) || echo "setup: harness $b did not build"
